@@ -152,3 +152,9 @@ Section F32.
       + exact (one_over _ Hs Hge).
   Qed.
 End F32.
+
+Lemma exp_ok_def (L : Libm) :
+  exp_ok L <-> (forall x : f32, is_nan x = false ->
+                  via (l_exp L) x = B754_infinity false \/
+                  (is_finite (via (l_exp L) x) = true /\ 0 <= B2R (via (l_exp L) x))).
+Proof. reflexivity. Qed.
